@@ -324,7 +324,7 @@ def h_real(t, part):
         t.force([part['first']])
     plan = [t.choice(len(c14.SC_OPS)) for _ in range(part['n'])]
     with notrace():
-        tr = c14.run_simple(part['async'], plan, live_only=True)
+        tr = c14.run_simple(part['async'], plan, live_only=True, reconnection=part.get('reconnection', False))
         t.reached('real-client')
         names = [c14.SC_OPS[o] for o in plan]
         buf, ended = [], False
@@ -360,7 +360,10 @@ def h_real(t, part):
 def real_parts(tier):
     from harness import c14
     n = 4 if tier == 'quick' else 5
-    return [{'async': a, 'n': n, 'first': f} for a in (False, True) for f in range(len(c14.SC_OPS))]
+    out = [{'async': a, 'n': n, 'first': f} for a in (False, True) for f in range(len(c14.SC_OPS))]
+    # with reconnection enabled (the default): an intended end must still be reported as final
+    out += [{'async': a, 'n': n - 1, 'first': f, 'reconnection': True} for a in (False, True) for f in range(len(c14.SC_OPS))]
+    return out
 
 
 CHECKS = [
